@@ -44,6 +44,10 @@ type Response struct {
 	headEncoded  bool
 	hasBody      bool
 	hijacked     bool
+
+	// the head was flushed before the body length was known (non-chunked):
+	// no Content-Length, the body is delimited by closing the connection.
+	closeDelimited bool
 }
 
 // Hijack .
@@ -390,6 +394,12 @@ func (res *Response) Flush() {
 
 	res.WriteHeader(http.StatusOK)
 	res.checkChunked()
+	if !res.chunked && !res.headEncoded && len(res.header[contentLengthHeader]) == 0 {
+		// The head goes out now but the length of the body is not known yet and
+		// (HTTP/1.0) cannot be chunked: the body ends when the connection closes.
+		res.closeDelimited = true
+		res.request.Close = true
+	}
 	res.eoncodeHead()
 
 	conn := res.Parser.Conn
@@ -480,7 +490,7 @@ func (res *Response) eoncodeHead() {
 		const contentType = "Content-Type: text/plain; charset=utf-8\r\n"
 		pdata = mempool.AppendString(pdata, contentType)
 	}
-	if !res.chunked && len(res.header[contentLengthHeader]) == 0 {
+	if !res.chunked && !res.closeDelimited && len(res.header[contentLengthHeader]) == 0 {
 		const contentLenthPrefix = "Content-Length: "
 		if !res.hasBody {
 			pdata = mempool.AppendString(pdata, contentLenthPrefix)
